@@ -757,7 +757,9 @@ func writeBuffersTo(conn net.Conn, p net.Buffers, idleTimeout time.Duration) err
 				return err // deemed critical
 			}
 		}
-		n, err := p.WriteTo(conn)
+		// WriteTo consumes from its receiver, thus work on a copy.
+		todo := append(net.Buffers(nil), p...)
+		n, err := todo.WriteTo(conn)
 		if err == nil {
 			return nil
 		}
